@@ -272,15 +272,25 @@ def build_driver(timeout=900):
 def cargo_build(crate, profile="release", features=None, bins=None, timeout=2400, extra_env=None):
     """build harness/<crate> against /repo (path dependency) with the hook cfg on."""
     cdir = os.path.join(HARNESS, crate)
-    tdir = os.path.join(CACHE, "target-" + crate)
+    # the tree under test: /repo, or a scratch worktree given by VERIF_REPO (seeded-change evaluation)
+    tag = "" if REPO == "/repo" else "-" + hashlib.sha256(REPO.encode()).hexdigest()[:8]
+    tdir = os.path.join(CACHE, "target-" + crate + tag)
     with Lock("cargo-" + crate):
+        tmpl = os.path.join(cdir, "Cargo.toml.in")
+        if os.path.exists(tmpl):
+            txt = open(tmpl).read().replace("@REPO@", REPO)
+            dst = os.path.join(cdir, "Cargo.toml")
+            if not os.path.exists(dst) or open(dst).read() != txt:
+                open(dst, "w").write(txt)
         shutil.copy(os.path.join(REPO, "Cargo.lock"), os.path.join(cdir, "Cargo.lock"))
         cmd = ["cargo", "build", "--offline", "--target-dir", tdir]
         if profile == "release":
             cmd.append("--release")
         if features:
             cmd += ["--features", ",".join(features)]
-        env = {"RUSTFLAGS": "--cfg %s" % GUARD_CFG, "CARGO_NET_OFFLINE": "true"}
+        env = {"RUSTFLAGS": "--cfg %s" % GUARD_CFG, "CARGO_NET_OFFLINE": "true",
+               "HX_RAFT_SRC": os.environ.get("HX_RAFT_SRC", os.path.join(REPO, "agdb_server/src/raft.rs")),
+               "VERIF_SERVER_SRC": os.environ.get("VERIF_SERVER_SRC", REPO)}
         if extra_env:
             env.update(extra_env)
         try:
